@@ -31,7 +31,7 @@ package matcher
 //@   && (m.notRegex != nil ==> pfxNec(m.NotRegex, m.prefixFromNotRegex[..]))
 //@
 //@ func (m *Matcher) Match(s []byte) bool
-//@   property C03
+//@   property C03,C01
 //@   requires m.wf()
 //@   ensures[conj] result == matchSpec(*m, s[..])
 //@
